@@ -136,6 +136,15 @@ class Runner:
             # a negative index stands for an argument that is not a Track
             return ("tlts", tl.add(tracks=[env.track(i) if i >= 0 else f"not-a-track{i}" for i in op[1]],
                                    at_position=op[2]))
+        if k == "indexof":
+            # index(tl_track=<object>): an entry given as an object; an impostor has the entry's
+            # tlid and URI but other metadata (it is not an entry)
+            from mopidy.models import TlTrack
+
+            tr = env.track(op[2] % len(env.kinds))
+            if op[3]:
+                tr = tr.replace(name="impostor")
+            return ("optz", tl.index(tl_track=TlTrack(tlid=op[1], track=tr)))
         if k == "clear":
             return ("none", tl.clear())
         if k == "move":
@@ -342,6 +351,9 @@ def g_op(op):
         return f"Slice {g_z(op[1])} {g_z(op[2])}"
     if k == "index":
         return f"Index {g_optz(op[1])}"
+    if k == "indexof":
+        # the impostor is a different track as far as the model is concerned
+        return f"IndexOf (mkTlt {g_z(op[1])} {g_z(op[2] % 1000 + (1000 if op[3] else 0))})"
     if k == "setmode":
         return f"SetMode {op[1]} {g_bool(op[2])}"
     if k in ("getnext", "geteot", "pause", "resume", "stop", "next", "previous", "deliver", "save"):
